@@ -22,3 +22,12 @@ claim("C05",
       note="A1 (reals; nonlinear arithmetic decided by z3), assumed LinearRegression contract (coef_ has one entry per column, positive=True gives non-negative "
            "coefficients), Sum lemma instances. Optimality / 'fraction q below' are not claimed (not applicable).",
       technique="deductive verification: postconditions + loop invariant from the real AST, z3 (nlsat for q*e)")
+claim("C13",
+      text="Proof: every entry of the predefined table is paired with a table entry that undoes it on its domain (exp/log axioms, for all y); "
+           "FunctionReciprocalTransformer fit/get_fct_inv/transform per name (features untouched, None stays None); TransformedTargetRegressor2 trains a clone "
+           "on (X, f(y)) and predicts the inverse function of the inner prediction; permutations: for EVERY permutation of 2 and 3 labels with arbitrary label "
+           "values: get_fct_inv is the inverse map, labels are replaced by their image, probability columns move to the rank of their label, classes_[j] is the "
+           "label of column j; fit yields a bijection for every target vector of length<=3. Bounded: larger label sets, NaN, agreement with the plain classifier.",
+      note="Permutation clauses are bounded in the number of labels (2,3) and complete in the label values; exp/log are uninterpreted with their inverse axioms; "
+           "estimator protocol and numpy permutation are assumed contracts; closest=True path not verified.",
+      technique="deductive verification: symbolic execution of the real table/lambdas and transformers against contracts, z3")
